@@ -887,6 +887,8 @@ fn signings_for(spec: &ZoneSpec, thorough: bool) -> Vec<Signing> {
 }
 
 fn main() {
+    // a stack overflow / abort in the code under test must become a verdict, not a dead check
+    vcore::supervise("C09");
     let ctx = Ctx::from_args("C09", "exploration");
     let thorough = !ctx.quick();
 
